@@ -82,7 +82,7 @@ def showPlane (k : Nat) (p : Plane FPos Float) : String :=
 def showMap (s : Airplanes FPos Float) : String :=
   let recs := s.map (fun kv => showPlane kv.1 kv.2)
   let ap := (allPosition s).map (fun kv => hex6 kv.1)
-  let shown := (s.filter (fun kv => hasDetails s kv.1)).map (fun kv => hex6 kv.1)      -- the lines of `Display for Airplanes`
+  let shown := (displayKeys s).map hex6      -- the lines of `Display for Airplanes`
   s!"MAP n={s.length} allpos={",".intercalate ap} shown={",".intercalate shown} | {" | ".intercalate recs}"
 
 end Adsb
